@@ -258,10 +258,12 @@ def check_repeat(case: Dict[str, Any]) -> Outcome:
                 k = n_req["n"]
                 n_req["n"] += 1
                 ans = rounds[k]["answer"] if k < len(rounds) else {"kind": "silence"}
-                wire = build_answer(ans)
+                wire = build_answer(ans if ans["kind"] != "late" else {"kind": "version", "v": ans["v"]})
                 if wire is not None:
                     wire = dict(wire, id=w["id"])
-                    asyncio.get_running_loop().call_later(T_ANS, res_.inject, parse_message(wire))
+                    # "late": the server does answer, but only after the client has given up - the answer then
+                    # arrives while the NEXT handshake on this connection is waiting for its own
+                    asyncio.get_running_loop().call_later(T + 0.05 if ans["kind"] == "late" else T_ANS, res_.inject, parse_message(wire))
 
         rec_.on_send = on_send
         await asyncio.sleep(3600)
@@ -299,6 +301,9 @@ def check_repeat(case: Dict[str, Any]) -> Outcome:
         L = list(rd["supported"])
         ans = rd["answer"]
         ok_expected = ans["kind"] == "version" and ans["v"] in L
+        if ans["kind"] == "late" and not isinstance(oc[1], TimeoutError):
+            out.fail("silence-not-timeout", f"round {k}: the answer came after the deadline, outcome {oc!r}")
+            return out
         if len(reqs) != 1:
             out.fail("not-exactly-one-initialize-request", f"round {k}: {seg!r}")
             return out
@@ -411,7 +416,7 @@ def job_overlap(col: Collector, seed: int, tier: str) -> None:
 
 
 def job_repeat(col: Collector, seed: int, tier: str) -> None:
-    """all sequences of 2 (and, in thorough, 3) handshakes over one connection from a 6-round alphabet"""
+    """all sequences of 2 (and, in thorough, 3) handshakes over one connection from a 7-round alphabet"""
     alpha = [
         {"supported": ["2025-06-18", "2025-03-26"], "preferred": None, "answer": {"kind": "version", "v": "2025-06-18"}},
         {"supported": ["2025-06-18", "2025-03-26"], "preferred": "2025-03-26", "answer": {"kind": "version", "v": "2025-06-18"}},
@@ -419,12 +424,13 @@ def job_repeat(col: Collector, seed: int, tier: str) -> None:
         {"supported": ["draft", "2025-03-26"], "preferred": "draft", "answer": {"kind": "version", "v": "2025-03-26"}},
         {"supported": ["2025-06-18"], "preferred": None, "answer": {"kind": "error", "code": -32603, "message": "x"}},
         {"supported": ["2025-06-18"], "preferred": None, "answer": {"kind": "silence"}},
+        {"supported": ["2025-06-18", "2025-03-26"], "preferred": None, "answer": {"kind": "late", "v": "2025-03-26"}},
     ]
     for L in ((2,) if tier == "quick" else (2, 3)):
         for combo in itertools.product(range(len(alpha)), repeat=L):
             case = {"repeat": [alpha[i] for i in combo]}
             col.record(case, check(case))
-    col.exhaustive_parts.append("re-negotiation: all sequences of 2 (thorough: and 3) handshakes over one connection from a 6-round alphabet (success, counter-proposal, mismatch, error, silence)")
+    col.exhaustive_parts.append("re-negotiation: all sequences of 2 (thorough: and 3) handshakes over one connection from a 7-round alphabet (success, counter-proposal, mismatch, error, silence, answer arriving after the deadline)")
 
 
 JOBS = {"enum": job_enum, "hyp": job_hyp, "overlap": job_overlap, "repeat": job_repeat}
